@@ -267,6 +267,27 @@ pub fn run(rep: &mut Report) {
             j_weekday(days[di], tod, ts, &leap, out)
         });
     }
+    // interior scan (round 8): evenly spread, unremarkable (day, nanosecond of day) pairs over years 0001-9999 in every scale,
+    // through weekday, next / previous (all 7 targets) and the four _at_ variants
+    {
+        let nsc: u64 = if q { 250_000 } else { 5_000_000 };
+        rep.bound("interior_scan_points", nsc);
+        let (d0, d1) = (days[0] as i128 + 8, days[days.len() - 1] as i128 - 8);
+        let lp = &leap;
+        let pt = move |k: u64| (crate::lattice::scan_point(k, 1, d0, d1) as i64, crate::lattice::scan_point(k, 2, 0, NS_DAY - 1));
+        sweep(rep, "c16.scan_weekday", 9 * nsc, |i, out| {
+            let (d, t) = pt(i / 9);
+            j_weekday(d, t, SCALES[(i % 9) as usize], lp, out)
+        });
+        sweep(rep, "c16.scan_next", 9 * 14 * (nsc / 8), |i, out| {
+            let (d, t) = pt(i / 126 + 1);
+            j_next(((i / 7) % 2) as usize, d, t, SCALES[((i / 14) % 9) as usize], (i % 7) as usize, lp, out);
+        });
+        sweep(rep, "c16.scan_at", 9 * 28 * (nsc / 16), |i, out| {
+            let (d, t) = pt(i / 252 + 2);
+            j_at(((i / 7) % 4) as usize, d, t, SCALES[((i / 28) % 9) as usize], (i % 7) as usize, lp, out);
+        });
+    }
     // next / previous
     let mut nd_days: Vec<i64> = days.iter().copied().step_by(7).collect();
     nd_days.extend(leap.leap_days());
